@@ -6,6 +6,7 @@ import Fdo.Drv.Kex
 import Fdo.Drv.Voucher
 import Fdo.Drv.TO0
 import Fdo.Drv.Chunk
+import Fdo.Drv.Rv
 /-
 Line-protocol driver: one operation per input line, one reply per output line.
 Imports model modules only (no proofs, no Mathlib) so that it links as a `lean_exe`.
@@ -32,6 +33,11 @@ def dispatch (line : String) : String :=
     match handlers.find? (fun h => cmd.startsWith h.1) with
     | some (_, f) => (f cmd args).getD "bad-op"
     | none => "bad-op"
+    let r :=
+      if cmd.startsWith "cbor." then Drv.Cbor.handle cmd args
+      else if cmd.startsWith "rv." then Drv.Rv.handle cmd args
+      else none
+    r.getD "bad-op"
 
 partial def loop (hin : IO.FS.Stream) (hout : IO.FS.Stream) : IO Unit := do
   let line ← hin.getLine
